@@ -80,7 +80,7 @@ fn make_jail(root: &Path) -> Jail {
         std::fs::create_dir_all(d.join("canary-dir")).unwrap();
         std::fs::write(d.join("canary-dir").join("inner"), b"inner canary").unwrap();
     }
-    std::fs::create_dir_all(root.join("outside-dir")).unwrap();
+    std::fs::create_dir_all(root.join("outside-dir").join("sub").join("deeper")).unwrap();
     std::fs::write(root.join("outside-dir").join("secret"), b"secret outside the target").unwrap();
     std::fs::create_dir_all(d.join("sibling")).unwrap();
     std::fs::write(d.join("sibling").join("file"), b"sibling of the target").unwrap();
@@ -278,6 +278,20 @@ fn hostile_cases(jail_root: &Path, rng: &mut Rng, n_random: usize) -> Vec<Hostil
         add(&format!("symlink-then-dir-below:{lbl}"), vec![hfile("/a/", "lnk", 0o120777, b"", &tgt), hfile("/a/lnk/", "planted-dir", 0o040700, b"", "")]);
         // the dirname pre-creation loop alone (no file entry below)
         add(&format!("symlink-then-symlink-below:{lbl}"), vec![hfile("/a/", "lnk", 0o120777, b"", &tgt), hfile("/a/lnk/", "l2", 0o120777, b"", "x")]);
+    }
+    // entries several levels below a symlink, reached through slashes in the base name (no directory
+    // name of the package covers the link, so nothing is pre-created in its place)
+    for (lbl, tgt) in [("abs", outside.clone()), ("rel", "../../../../../../outside-dir".to_string())] {
+        for (depth, base) in [(1, "lnk/planted"), (2, "lnk/sub/planted"), (3, "lnk/sub/deeper/planted")] {
+            add(&format!("symlink-then-file-deep-below:{lbl}:{depth}"), vec![hfile("/", "lnk", 0o120777, b"", &tgt), hfile("/", base, reg, b"planted deep below a symlink", "")]);
+            add(&format!("symlink-then-dir-deep-below:{lbl}:{depth}"), vec![hfile("/opt/", "lnk", 0o120777, b"", &tgt), hfile("/opt/", &format!("{base}-dir"), 0o040700, b"", "")]);
+        }
+    }
+    // a symlink entry whose path is the extraction target itself, followed by ordinary entries
+    for (dir, base) in [("/", ""), ("/", "."), ("/./", ""), ("", ""), ("/", "./"), ("//", "")] {
+        for tgt in [outside.clone(), "sibling".to_string()] {
+            add("symlink-replaces-target-dir", vec![hfile(dir, base, 0o120777, b"", &tgt), hfile("/", "after", reg, b"written after the target was replaced", ""), hfile("/", "after-dir", 0o040755, b"", "")]);
+        }
     }
     add("directory-then-symlink-same-name", vec![hfile("/a/", "d", 0o040755, b"", ""), hfile("/a/", "d", 0o120777, b"", &outside), hfile("/a/d/", "f", reg, b"below replaced dir", "")]);
     add("symlink-chmod-through-link", vec![hfile("/a/", "lnk", 0o120777, b"", &format!("{outside}/secret")), hfile("/a/", "lnk", 0o100000, b"", "")]);
